@@ -267,6 +267,57 @@ func ownFunc(w *World, fi *FuncInfo) []*OwnOb {
 		}
 	}
 	out = append(out, sliceAliasObs(w, fi)...)
+	out = append(out, orderObs(w, fi)...)
+	return out
+}
+
+// orderObs: `order A#i B#j` clauses. Both call sites must exist and the top-level statement of the function body that
+// contains A#i must come before the one that contains B#j (statements of one block run in source order).
+func orderObs(w *World, fi *FuncInfo) []*OwnOb {
+	if fi.Contract == nil || len(fi.Contract.Orders) == 0 {
+		return nil
+	}
+	info := fi.Pkg.TypesInfo
+	cnt := map[string]int{}
+	stmtOf := map[string]int{}
+	for si, st := range fi.Decl.Body.List {
+		ast.Inspect(st, func(n ast.Node) bool {
+			c, ok := n.(*ast.CallExpr)
+			if !ok {
+				return true
+			}
+			var id *ast.Ident
+			switch f := c.Fun.(type) {
+			case *ast.Ident:
+				id = f
+			case *ast.SelectorExpr:
+				id = f.Sel
+			}
+			if id == nil {
+				return true
+			}
+			fn, ok := info.Uses[id].(*types.Func)
+			if !ok {
+				return true
+			}
+			callee := w.ByObj[fn]
+			if callee == nil {
+				return true
+			}
+			cnt[callee.Name]++
+			stmtOf[fmt.Sprintf("%s#%d", callee.Name, cnt[callee.Name])] = si
+			return true
+		})
+	}
+	var out []*OwnOb
+	pp := w.Fset.Position(fi.Decl.Pos())
+	pos := fmt.Sprintf("%s:%d", strings.TrimPrefix(pp.Filename, w.RepoDir+"/"), pp.Line)
+	for _, o := range fi.Contract.Orders {
+		a, okA := stmtOf[o[0]]
+		b, okB := stmtOf[o[1]]
+		out = append(out, &OwnOb{Key: fmt.Sprintf("%s.order[%s before %s]", fi.Key, o[0], o[1]), Kind: "effects", OK: okA && okB && a < b, Pos: pos,
+			Why: fmt.Sprintf("%s must run before %s (both must exist; found statements %d and %d, present %v/%v)", o[0], o[1], a, b, okA, okB)})
+	}
 	return out
 }
 
